@@ -143,7 +143,15 @@ def regenerate():
         facts = json.load(open(facts_path))
     except Exception as ex:
         errors.append({"lean": "facts", "error": "facts pass failed: %s %s" % (ex, f.stderr[-1500:])})
-    sizes_line = f.stdout.strip().split("\n")[-1] if f.stdout.strip() else "sizes 0 0 0 0 0 0 0 0 0 0"
+    sl = [l for l in f.stdout.strip().split("\n") if l.startswith("sizes ")]
+    sizes_line = sl[-1] if sl else "sizes 0 0 0 0 0 0 0 0 0 0"
+    # CPU probes -> Gen/Probes.lean
+    perr_path = os.path.join(os.path.dirname(meta_path), "probe_errors.json")
+    pp = run([sys.executable, os.path.join(HERE, "probe2lean.py"), REPO, perr_path])
+    try:
+        errors += json.load(open(perr_path))
+    except Exception as ex:
+        errors.append({"lean": "Gen/Probes.lean", "error": "probe translator crashed: %s %s" % (ex, pp.stderr[-800:])})
     return meta, facts, errors, sizes_line
 
 def lake_build(targets, timeout=3600):
